@@ -5,118 +5,6 @@ Local Open Scope N_scope.
 
 Ltac norm_app := repeat first [rewrite <- app_assoc | progress cbn [app]].
 
-(* r' is r with the text g inserted somewhere *)
-Definition ins (g r r' : list N) : Prop := exists a b, r = a ++ b /\ r' = a ++ g ++ b.
-
-Lemma wsne_head : forall g, wsne g -> exists w g', g = w :: g' /\ is_ws w = true.
-Proof.
-  intros [|w g'] [Hne Hall]; [contradiction|]. unfold wsall in Hall. cbn [forallb] in Hall.
-  apply andb_prop in Hall as [Hw _]. eauto.
-Qed.
-
-Lemma stops_ins : forall p g r r', (forall w, is_ws w = true -> p w = false) -> wsne g -> ins g r r' -> stops p r -> stops p r'.
-Proof.
-  intros p g r r' Hp Hg (a & b & -> & ->) H. destruct (wsne_head g Hg) as (w & g' & -> & Hw).
-  destruct a as [|x a]; cbn in *; auto.
-Qed.
-
-Lemma frac_follows_ins : forall g r r', wsne g -> ins g r r' -> frac_follows r = false -> frac_follows r' = false.
-Proof.
-  intros g r r' Hg (a & b & -> & ->) H. destruct (wsne_head g Hg) as (w & g' & -> & Hw).
-  destruct a as [|x [|y a]]; cbn [app frac_follows] in *.
-  - destruct (g' ++ b); replace (w =? 46) with false by (unfold is_ws in Hw; lia); reflexivity.
-  - rewrite (ws_not_digit w Hw). apply andb_false_r.
-  - exact H.
-Qed.
-
-Lemma eq_follows_ins : forall g r r', wsne g -> ins g r r' -> eq_follows r = false -> eq_follows r' = false.
-Proof.
-  intros g r r' Hg (a & b & -> & ->) H. destruct (wsne_head g Hg) as (w & g' & -> & Hw).
-  destruct a as [|x a]; cbn [app eq_follows] in *; [unfold is_ws in Hw; lia|exact H].
-Qed.
-
-(* what a scanner looks at beyond its token: r' may stand for r when every test that stopped the token on r stops it
-   on r' as well *)
-Definition follows_like (r r' : list N) : Prop :=
-  (stops is_idc r -> stops is_idc r') /\ (stops is_digit r -> stops is_digit r') /\
-  (frac_follows r = false -> frac_follows r' = false) /\ (eq_follows r = false -> eq_follows r' = false).
-
-Lemma follows_like_ins : forall g r r', wsne g -> ins g r r' -> follows_like r r'.
-Proof.
-  intros g r r' Hg Hi. repeat split.
-  - apply (stops_ins _ g r r' ws_not_idc Hg Hi).
-  - apply (stops_ins _ g r r' ws_not_digit Hg Hi).
-  - apply (frac_follows_ins g r r' Hg Hi).
-  - apply (eq_follows_ins g r r' Hg Hi).
-Qed.
-
-Lemma frac_true_shape : forall d a2 b2, frac_follows (d :: a2 ++ b2) = true -> stops is_digit b2 ->
-  d = 46 /\ exists e a2', a2 = e :: a2'.
-Proof.
-  intros d a2 b2 Hf St. cbn [frac_follows] in Hf. destruct a2 as [|e a2'].
-  - cbn [app] in Hf. destruct b2 as [|e b2]; [discriminate|]. apply andb_prop in Hf as [_ Hf2].
-    cbn in St. rewrite St in Hf2. discriminate.
-  - cbn [app] in Hf. apply andb_prop in Hf as [Hf1 _]. split; [lia|eauto].
-Qed.
-
-Theorem scan_stable : forall s l r, scan s = Some (l, r) ->
-  s = l ++ r /\ l <> [] /\ forall r', follows_like r r' -> scan (l ++ r') = Some (l, r').
-Proof.
-  intros s l r H. destruct s as [|c s]; [discriminate|]. cbn [scan] in H.
-  destruct (is_alpha c) eqn:Ha.
-  { destruct (span is_idc s) as [a b] eqn:Hs. inversion H; subst. destruct (span_spec _ _ _ _ Hs) as (E & Fa & St).
-    subst s. repeat split; [discriminate|]. intros r' (F1 & _). cbn [app scan]. rewrite Ha.
-    rewrite (span_intro is_idc a r' Fa (F1 St)). reflexivity. }
-  destruct (is_digit c) eqn:Hd.
-  { destruct (span is_digit s) as [a b] eqn:Hs. destruct (span_spec _ _ _ _ Hs) as (E & Fa & St). subst s.
-    destruct (frac_follows b) eqn:Hf.
-    - destruct b as [|d b1]; [discriminate|]. destruct (span is_digit b1) as [a2 b2] eqn:Hs2.
-      inversion H; subst. destruct (span_spec _ _ _ _ Hs2) as (E2 & Fa2 & St2). subst b1.
-      destruct (frac_true_shape _ _ _ Hf St2) as [Hd46 (e & a2' & Ea2)].
-      subst d a2. repeat split.
-      + cbn. f_equal. rewrite <- app_assoc. reflexivity.
-      + discriminate.
-      + intros r' (_ & F2 & _). cbn [app scan]. rewrite Ha, Hd.
-        rewrite <- app_assoc. cbn [app].
-        rewrite (span_intro is_digit a (46 :: e :: a2' ++ r') Fa) by (cbn; reflexivity).
-        cbn [forallb] in Fa2. apply andb_prop in Fa2 as [He Fa2].
-        cbn [frac_follows]. rewrite He. cbn [N.eqb Pos.eqb andb].
-        replace (span is_digit (e :: a2' ++ r')) with (e :: a2', r').
-        * reflexivity.
-        * symmetry. apply (span_intro is_digit (e :: a2') r'); [cbn [forallb]; rewrite He; exact Fa2|].
-          exact (F2 St2).
-    - inversion H; subst. repeat split; [discriminate|]. intros r' (_ & F2 & F3 & _). cbn [app scan]. rewrite Ha, Hd.
-      rewrite (span_intro is_digit a r' Fa (F2 St)). rewrite (F3 Hf). reflexivity. }
-  destruct ((c =? 39) || (c =? 96)) eqn:Hq.
-  { destruct (scan_q c false s) as [[a b]|] eqn:Hs; [|discriminate]. inversion H; subst.
-    destruct (scan_q_local _ _ _ _ _ Hs) as [E L]. subst s. repeat split; [discriminate|].
-    intros r' _. cbn [app scan]. rewrite Ha, Hd, Hq, L. reflexivity. }
-  destruct (c =? 36) eqn:H36.
-  { destruct (strip_prefix kw_this s) as [b|] eqn:H1.
-    { inversion H; subst. destruct (strip_prefix_local _ _ _ H1) as [E L]. subst s. repeat split; [discriminate|].
-      intros r' _. cbn [app scan]. rewrite Ha, Hd, Hq, H36. rewrite L. reflexivity. }
-    destruct (strip_prefix kw_index s) as [b|] eqn:H2.
-    { inversion H; subst. destruct (strip_prefix_local _ _ _ H2) as [E L]. subst s. repeat split; [discriminate|].
-      intros r' _. cbn [app scan]. rewrite Ha, Hd, Hq, H36.
-      replace (strip_prefix kw_this (kw_index ++ r')) with (@None (list N)) by reflexivity. rewrite L. reflexivity. }
-    destruct (strip_prefix kw_total s) as [b|] eqn:H3; [|discriminate].
-    inversion H; subst. destruct (strip_prefix_local _ _ _ H3) as [E L]. subst s. repeat split; [discriminate|].
-    intros r' _. cbn [app scan]. rewrite Ha, Hd, Hq, H36.
-    replace (strip_prefix kw_this (kw_total ++ r')) with (@None (list N)) by reflexivity.
-    replace (strip_prefix kw_index (kw_total ++ r')) with (@None (list N)) by reflexivity. rewrite L. reflexivity. }
-  destruct ((c =? 60) || (c =? 62)) eqn:Hlt.
-  { destruct (eq_follows s) eqn:He.
-    - inversion H; subst. destruct s as [|d s]; [discriminate|]. cbn [eq_follows] in He. apply N.eqb_eq in He. subst d.
-      repeat split; [discriminate|]. intros r' _. cbn [app scan]. rewrite Ha, Hd, Hq, H36, Hlt. reflexivity.
-    - inversion H; subst. repeat split; [discriminate|]. intros r' (_ & _ & _ & F4). cbn [app scan]. rewrite Ha, Hd, Hq, H36, Hlt.
-      rewrite (F4 He). reflexivity. }
-  destruct (c =? 33) eqn:H33.
-  { destruct s as [|d s]; [discriminate|]. destruct ((d =? 61) || (d =? 126)) eqn:Hd2; [|discriminate].
-    inversion H; subst. repeat split; [discriminate|]. intros r' _. cbn [app scan]. rewrite Ha, Hd, Hq, H36, Hlt, H33, Hd2. reflexivity. }
-  destruct (is_single c) eqn:Hs1; [|discriminate].
-  inversion H; subst. repeat split; [discriminate|]. intros r' _. cbn [app scan]. rewrite Ha, Hd, Hq, H36, Hlt, H33, Hs1. reflexivity.
-Qed.
-
 (* ---- the hidden-channel automaton ------------------------------------------------------------------------------------ *)
 Lemma skipm_top_line_some : forall s, skipm MTop s <> None /\ skipm MLine s <> None.
 Proof.
@@ -283,7 +171,7 @@ Proof.
       by (norm_app; reflexivity).
     cbn [lex]. rewrite (K g c r0 _ eq_refl Hg Hi0). rewrite Hk.
     change (c :: l' ++ x ++ g ++ b) with ((c :: l') ++ x ++ g ++ b).
-    rewrite (L _ (follows_like_ins g r _ Hg Hi)). rewrite Hs.
+    rewrite (L _ (sim_of_ins g r _ Hg Hi)). rewrite Hs.
     rewrite (IH x g f Ex Hg). rewrite <- Ex. reflexivity.
 Qed.
 
